@@ -106,7 +106,7 @@ static void viol(const char *prop, const char *fmt, ...)
 {
     char msg[700]; va_list ap;
     va_start(ap, fmt); vsnprintf(msg, sizeof(msg), fmt, ap); va_end(ap);
-    if (strcmp(prop, VD.prop) != 0 && prop[0] != '*') { VD.by_kind[0]++; return; }    /* belongs to another property's check */
+    if (strstr(prop, VD.prop) == NULL && prop[0] != '*') { VD.by_kind[0]++; return; }    /* belongs to another property's check */
     vd_violation("%s", msg);
 }
 
@@ -208,7 +208,7 @@ static void failinject(const char *buf, size_t len, int rnt)
 
 static int do_case(const jv *line)
 {
-    const jv *bytes = jv_at(line, 1); size_t n = bytes->n, k; unsigned char t[512]; int hasnul = 0, drift = 0, where;
+    const jv *bytes = jv_at(line, 1); size_t n = bytes->n, k; static unsigned char t[65536]; int hasnul = 0, drift = 0, where;
     if (n + 1 > sizeof(t)) return -1;
     for (k = 0; k < n; k++) { t[k] = (unsigned char)jv_int(bytes->e[k]); if (!t[k]) hasnul = 1; }
     t[n] = 0;
@@ -240,6 +240,11 @@ static int do_case(const jv *line)
         }
     }
     if (al_live != 0) viol("C01", "%ld block(s) still allocated after all trees of the case were deleted", al_live);
+    if (al_libc_malloc_calls + al_libc_free_calls + al_libc_realloc_calls) {
+        viol("C14", "while custom allocation hooks are installed the parser called the C allocator directly (%ld malloc, %ld free, %ld realloc)", al_libc_malloc_calls, al_libc_free_calls, al_libc_realloc_calls);
+        al_libc_malloc_calls = al_libc_free_calls = al_libc_realloc_calls = 0;
+    }
+    if (!al_check_redzones()) { viol("*", "the parser wrote beyond the end of a block it allocated"); al_overflow = 0; }
     if (drift) VD.drift++;
     return 1;
 }
